@@ -283,6 +283,7 @@ class InterpolatedLinearOperator(LinearOperator):
 
         # left_interp_values grad
         right_interp_right_res = self.base_linear_op._matmul(right_res).contiguous()
+        n_inducing = right_interp_right_res.size(-2)  # rows of the base operator (!= its columns when it is not square)
         batch_shape = torch.Size(right_interp_right_res.shape[:-2])
         batch_size = batch_shape.numel()
         if len(batch_shape):
@@ -300,6 +301,7 @@ class InterpolatedLinearOperator(LinearOperator):
 
         # right_interp_values_grad
         left_interp_left_res = self.base_linear_op._t_matmul(left_res).contiguous()
+        n_inducing = left_interp_left_res.size(-2)  # columns of the base operator
         batch_shape = left_interp_left_res.shape[:-2]
         batch_size = batch_shape.numel()
         if len(batch_shape):
